@@ -127,6 +127,9 @@ CLOSURE_KEYS = sorted(DEC)
 STARTERS = [0x61, 0x65, 0x6F, 0x75, 0x41, 0x4F, 0x3B1, 0x3C9, 0x3B9, 0x3B7, 0x438, 0x430, 0x443, 0x456,
             0xE9, 0xE4, 0x1EA1, 0x1A1, 0x1F00, 0x3AC, 0x439, 0x1EBF, 0x212B, 0x1E09]
 MARKS = [0x300, 0x301, 0x302, 0x308, 0x304, 0x306, 0x323, 0x327, 0x328, 0x31B, 0x334, 0x345, 0x313, 0x342]
+# primary composites whose second character is a mark of combining class 0 (Bengali/Oriya/Tamil/... two-part vowels,
+# Myanmar, Balinese ...): (first, second) pairs, from unicodedata
+SS_PAIRS = sorted((a, b) for (a, b) in PRIMARY if U.combining(chr(b)) == 0 and U.category(chr(b)).startswith("M") and U.combining(chr(a)) == 0)[:48]
 # marks whose class the shaper remaps (Hebrew, Arabic, Thai ...): model-vs-implementation only
 REMAPPED_MARKS = [0x5B4, 0x5B8, 0x5BC, 0x64B, 0x651, 0xE38, 0xE48, 0xF71, 0xF72, 0xF39, 0x1A60]
 
@@ -189,6 +192,11 @@ def gen_strings(rng, thorough):
         for _ in range(3000):
             k = rng.choice([3, 3, 4, 4, 5])
             texts.append([rng.choice(STARTERS)] + [rng.choice(MARKS) for _ in range(k)])
+    # starter + a composing mark of combining class 0 (two-part vowels, length marks): only adjacency lets them compose
+    for (a, b) in SS_PAIRS:
+        texts.append([a, b])
+        texts.append([a, b, 0x323])
+        texts.append([a, 0x323, b])
     cases = []
     for t in texts:
         n = set(nfd(t))
@@ -487,6 +495,8 @@ def api_level(chk, binp, rng, thorough):
         if o_t[k] is None:
             continue
         pre, suf = ctxs[(k // 7) % len(ctxs)]
+        if U.category(chr(text[0])).startswith("M"):
+            pre = []        # a cluster that begins with a mark would join the prefix's last cluster
         extra_chars = set(pre) | set(suf) | set(closure(set(nfd(pre + suf)))) | set(nfd(pre + suf))
         ctx_cases.append((k, set(rep) | extra_chars, pre + text + suf, len(pre)))
     o_c = shape_many(binp, [(r, t) for _, r, t, _ in ctx_cases])
